@@ -21,7 +21,10 @@ EV_PROP = {
     "enter": "C13",
     "recv": ("C13", "C14"), "cancelobserved": "C14", "returned": "C14", "sending": ("C13", "C14"),
     "acquired": "C15", "locked": "C15", "acquiring": "C15", "locking": "C15", "write": "C15", "writefail": ("C15", "C16"), "flush": "C15", "releasing": "C15", "unlocking": "C15", "frag": "C15",
-    "idle": "C16", "sort": "C16", "run": "C16", "alldone": "C16", "hang": "C16", "panic": "C16",
+    "idle": "C16", "sort": "C16", "run": "C16",
+    # Run leaves its loop although not every vertex is done: what is still in flight goes unreported (C14), what is still
+    # pending never runs (C16)
+    "alldone": ("C14", "C16"), "hang": "C16", "panic": "C16",
     "add": "C16", "dep": "C16", "retries": "C16", "deferr": "C16", "config": "C16",
     "dot": "C16", "validate": "C16", "rerun": ("C14", "C16"), "tmadd": "C16", "tmgetbad": "C16",
     "continue": ("C14", "C16"), "setlimit": "C15", "starved": "C16",
@@ -121,6 +124,7 @@ DRIVERS = {
             ("rand", ["-maxv", "5", "-weird", "0", "-fill"], 240, 6000),  # fill-the-semaphore schedules (incl. a second round with another limit)
             ("exhaust", ["-v", "0", "-outs", "nil", "-orders", "3"], 0, 0),  # the empty graph (plain, reversed, shuffled: the same)
             ("exhaust", ["-v", "1", "-outs", "nil,err,skipparents", "-orders", "1", "-serial"], 0, 0),
+            ("exhaust", ["-v", "4", "-outs", "nil,skipparents", "-orders", "1"], 0, 0),  # several ErrorSkipParents in one run: vertices re-marked after they were done
             ("follow", [], 480, 16000)],
 }
 THOROUGH_EXTRA = {
